@@ -657,6 +657,27 @@ impl rustc_driver::Callbacks for Cb {
             let did = id.owner_id.def_id;
             if let DefKind::Const { .. } = tcx.def_kind(did) {
                 let t = tcx.type_of(did).instantiate_identity().skip_norm_wip();
+                if !t.is_integral() {
+                    if let ty::Array(..) = t.kind() {
+                        if let Ok(ConstValue::Indirect { alloc_id, offset }) = tcx.const_eval_poly(did.to_def_id()) {
+                            let a = tcx.global_alloc(alloc_id).unwrap_memory();
+                            let a = a.inner();
+                            let len = a.len();
+                            if len <= 4096 && offset.bytes() == 0 {
+                                let bytes = a.inspect_with_uninit_and_ptr_outside_interpreter(0..len);
+                                let mut hex = String::new();
+                                for b in bytes {
+                                    let _ = write!(hex, "{:02x}", b);
+                                }
+                                if !first {
+                                    out.push(',');
+                                }
+                                first = false;
+                                let _ = write!(out, "{{\"key\":{},\"ty\":{},\"hex\":{}}}", js(&tcx.def_path_str(did.to_def_id())), js(&format!("{}", t)), js(&hex));
+                            }
+                        }
+                    }
+                }
                 if t.is_integral() {
                     if let Ok(v) = tcx.const_eval_poly(did.to_def_id()) {
                         if let Some(si) = v.try_to_scalar_int() {
